@@ -9,6 +9,8 @@ def sh(cmd, cwd=None, timeout=600):
     return p.returncode, (p.stdout + p.stderr)
 def demo_cmd(how, src, wt, seeded):
     h = how
+    # drop parenthetical commentary such as "(passes on HEAD, fails after git apply ...)"
+    h = re.sub(r"\s\((?:[^()$]*)(?:pass|fail|PASS|FAIL|HEAD|needs|uses|copies)[^()]*\)", " ", h)
     # cut trailing commentary
     m = re.search(r"\s{2,}\(", h)
     if m:
